@@ -363,11 +363,12 @@ class Beam(_Simu):
         elif beamModel.dim == 2:
             unknowns = ["x", "y"]
         elif beamModel.dim == 3:
+            freeRotations = unknowns  # the rotations the hinge leaves free
             unknowns = ["x", "y", "z"]
-            if unknowns != [""]:
+            if freeRotations != [""]:
                 # We will block rotation ddls that are not in unknowns.
                 unknowns_rot = ["rx", "ry", "rz"]
-                for dir in unknowns:
+                for dir in freeRotations:
                     if dir in unknowns_rot.copy():
                         unknowns_rot.remove(dir)
                 unknowns.extend(unknowns_rot)
